@@ -203,6 +203,15 @@ def step (line : String) : String :=
       (resJson (FuncAttr.funcRT pr) fun r =>
         Json.mkObj ((match r.typ with | some t => [("typ", Json.str (String.ofList t))] | none => []) ++
           (match r.default with | some v => [("default", valToJson v)] | none => []))).compress
+    | .ok "scan_doc" =>
+      let t := (optStr j "text").getD []
+      let st : DocEmit.Style := if (j.getObjValAs? String "style").toOption.getD "" == "google" then .google else .numpydoc
+      let strs (l : List (List Char)) : Json := Json.arr (l.map fun x => Json.str (String.ofList x)).toArray
+      (resJson (DocScan.scanPhase st t) fun sc =>
+        Json.mkObj [("doc", Json.str (String.ofList sc.doc)),
+          ("args", Json.arr (sc.args.map strs).toArray),
+          ("rets", match sc.rets with | .lines l => strs l | .units u => Json.arr (u.map strs).toArray),
+          ("afterward", match sc.afterward with | some a => strs a | none => Json.null)]).compress
     | .ok "emit_docstring" =>
       let emit := (j.getObjValAs? Bool "emit").toOption.getD true
       let ir := match j.getObjVal? "ir" with | .ok i => irOfJson i | _ => {}
